@@ -5,6 +5,7 @@ CONSTANTS
   MaxCount = 1000000
   BadBytes = "BADBYTES"
   FailModes = {FALSE}
+  StrictModes = {FALSE}
 INVARIANT Ok
 INVARIANT RegIsBalance
 CHECK_DEADLOCK FALSE
